@@ -432,6 +432,17 @@ static void check_slice(SliceCtx &cx, const std::vector<double> &s, const std::v
             vf::violation("C17|dataSlice|units equal to the dimensions' units, " + mode + "|same result as without units|" + (u.thrown != o.thrown ? (u.thrown ? u.exc + " instead of a view" : "view instead of an error") : "different region"),
                           ctx() + " units=" + vf::jvecs(units) + ": got " + ostr(u) + ", without units " + ostr(o));
     }
+    // one unit per DIMENSION although fewer start / end entries are given: the dimensions without entries are still unspecified
+    if (with_units_too && L < rank) {
+        std::vector<std::string> units;
+        for (size_t k = 0; k < rank; k++) units.push_back(axes[k].unit);
+        Outcome u = run_slice(*cx.da, rank, s, e, &units, cx.mode);
+        vf::count("slices_with_units");
+        bool same = u.thrown == o.thrown && u.ext == o.ext && u.data == o.data && u.defect == o.defect;
+        if (!same)
+            vf::violation("C17|dataSlice|one unit per dimension but fewer start/end entries, " + mode + "|same result as without units|" + (u.thrown != o.thrown ? (u.thrown ? u.exc + " instead of a view" : "view instead of an error") : "different region"),
+                          ctx() + " units=" + vf::jvecs(units) + ": got " + ostr(u) + ", without units " + ostr(o));
+    }
 }
 
 // single candidates for the rank-3 plans: first coordinate, a midpoint, last coordinate (more: below the first, beyond the last)
